@@ -68,25 +68,37 @@ Theorem C09_no_crosswire : forall s l c c',
   call_label l = Some c -> c' <> c -> nth_error (calls (step s l)) c' = nth_error (calls s) c'.
 Proof. exact no_crosswire. Qed.
 
-(* (5) multi_call: the requests are created in target order, request i is addressed to target
-   i and stays so; the result vector is by definition indexed like the request ids.
-   PARTIAL: stated for the driver's `multi_send` and `gres_of`, i.e. for the model of
-   rpc::multi_call; that the real JoinSet threads the index is checked by correspondence only *)
-Theorem C09_multi_order_partial : forall ts tmo d ids d' ids' failed,
-  multi_send ts tmo d ids = (d', ids', failed) ->
-  (forall i c a, nth_error ids i = Some c -> callee_is (d_s d) c a -> callee_is (d_s d') c a)
-  /\ exists new, ids' = ids ++ new
-     /\ (failed = false -> length new = length ts)
-     /\ forall i c a, nth_error new i = Some c -> nth_error ts i = Some a -> callee_is (d_s d') c a.
+(* (5) multi_call is part of the model (x-labels: `XNewMulti ts tmo` registers a call,
+   `XMultiSend g` is one iteration of its send loop, `XL l` is any ordinary label), so the
+   theorem is over ALL x-label sequences: several multi_calls in progress at once, their send
+   loops interleaved with anything else, targets exiting at any moment.  For every multi_call:
+   request i was created for target i with the call's timeout and stays addressed to it; no
+   request is shared between two multi_calls or two positions; and when the caller receives
+   `GOk rs`, rs has one entry per target and entry i is the outcome of request i -- i.e. of the
+   port that was sent to target i *)
+Theorem C09_multi_order : forall xls t n g gr,
+  let s := xrun xls (init t n) in
+  nth_error (groups s) g = Some gr ->
+  (forall i c, nth_error (gg_ids gr) i = Some c ->
+     exists a, nth_error (gg_targets gr) i = Some a /\ sent_to s c a (gg_tmo gr))
+  /\ (forall g2 gr2 i1 i2 c, nth_error (groups s) g2 = Some gr2 ->
+        nth_error (gg_ids gr) i1 = Some c -> nth_error (gg_ids gr2) i2 = Some c -> g = g2 /\ i1 = i2)
+  /\ (forall rs tt, gres_of s gr = GOk rs tt ->
+        length rs = length (gg_targets gr)
+        /\ forall i c, nth_error (gg_ids gr) i = Some c -> nth_error rs i = Some (res_of s c)).
 Proof. exact multi_order. Qed.
 
-Theorem C09_multi_vector : forall s g rs tt,
-  gres_of s g = GOk rs tt ->
-  rs = map (fun c => match nth_error (calls s) c with Some cl => fst (ores_of (c_st cl)) | None => OPending end) (g_ids g).
-Proof. exact gres_vector. Qed.
-(* OPEN: C09_multi_order for whole scenarios (forall ops, every started group of `exec n ops`
-   keeps ids.(i) addressed to targets.(i) until the end) -- needs the group invariant threaded
-   through all driver functions; not done. *)
+(* the states of x-runs are states of ordinary runs plus the multi_call bookkeeping: theorems
+   (1)-(4) and (6) apply to every request of every multi_call (e.g. C09_success_sound_x) *)
+Theorem C09_xrun_core : forall xls t n,
+  exists ls, xrun xls (init t n) = set_groups (run ls (init t n)) (groups (xrun xls (init t n))).
+Proof. exact xrun_core. Qed.
+
+Theorem C09_success_sound_x : forall xls t n c cl v tt,
+  let s := xrun xls (init t n) in
+  nth_error (calls s) c = Some cl -> c_st cl = CGot (RSuccess v) tt ->
+  first_reply c (replies s) = Some v.
+Proof. exact success_sound_x. Qed.
 
 (* (6) call_and_forward: at most one forward per call; exactly one, carrying the reply's value,
    issued at the completion time, when the call succeeded; none otherwise *)
@@ -101,7 +113,7 @@ Proof. exact forward_once. Qed.
 
 (* (7) the deterministic driver of the correspondence check only performs model steps *)
 Theorem C09_exec_is_run : forall n ops,
-  d_s (exec n ops) = run (rev (d_ls (exec n ops))) (init 0 n).
+  d_s (exec n ops) = xrun (rev (d_ls (exec n ops))) (init 0 n).
 Proof. exact exec_is_run. Qed.
 
 (* OPEN: C09_oracle_sound : forall n ops, check_C09 n ops (observe n ops) = true.  Not proved;
@@ -120,6 +132,16 @@ Check (C09_no_hang : forall ls t n c cl dl,
              = Some (set_call cl (CGot r (now s)) (c_ch cl) (c_loc cl) (c_first cl))
              /\ (r = RSenderError \/ exists v, r = RSuccess v /\ c_ch cl = ChFull v))
   /\ ~ caller_quiescent s c).
+Check (C09_multi_order : forall xls t n g gr,
+  let s := xrun xls (init t n) in
+  nth_error (groups s) g = Some gr ->
+  (forall i c, nth_error (gg_ids gr) i = Some c ->
+     exists a, nth_error (gg_targets gr) i = Some a /\ sent_to s c a (gg_tmo gr))
+  /\ (forall g2 gr2 i1 i2 c, nth_error (groups s) g2 = Some gr2 ->
+        nth_error (gg_ids gr) i1 = Some c -> nth_error (gg_ids gr2) i2 = Some c -> g = g2 /\ i1 = i2)
+  /\ (forall rs tt, gres_of s gr = GOk rs tt ->
+        length rs = length (gg_targets gr)
+        /\ forall i c, nth_error (gg_ids gr) i = Some c -> nth_error rs i = Some (res_of s c))).
 Check (C09_no_crosswire : forall s l c c',
   call_label l = Some c -> c' <> c -> nth_error (calls (step s l)) c' = nth_error (calls s) c').
 
@@ -157,6 +179,15 @@ Example ex_multi :
                        OAct 1 (mkPlan [] (AReply 20)); OAct 0 (mkPlan [] (AReply 10))])
   = [(GOk [OSuccess 10; OSuccess 20; OSuccess 30] 0, [0; 1; 2]%nat)].
 Proof. vm_compute; reflexivity. Qed.
+(* two multi_calls whose send loops are interleaved, one target exits in between *)
+Definition ex_xls : list xlabel :=
+  [XNewMulti [0; 1]%nat None; XNewMulti [1; 0]%nat (Some 5); XMultiSend 0; XMultiSend 1;
+   XL (Exit 0); XMultiSend 0; XMultiSend 1].
+Example ex_interleaved :
+  map (fun g => (gg_ids g, gg_failed g)) (groups (xrun ex_xls (init 0 2)))
+  = [([0; 2]%nat, false); ([1; 3]%nat, true)]
+  /\ map c_callee (calls (xrun ex_xls (init 0 2))) = [0; 1; 1; 0]%nat.
+Proof. split; vm_compute; reflexivity. Qed.
 Example ex_forward :
   o_fwds (observe 2 [OFwd 0 1 None; OSettle; OAct 0 (mkPlan [] (AReply 60))]) = [(0%nat, 60, 0, true)]
   /\ o_fwds (observe 2 [OFwd 0 1 None; OSettle; OAct 0 (mkPlan [] ADrop)]) = [].
@@ -181,7 +212,8 @@ Print Assumptions C09_no_hang.
 Print Assumptions C09_timeout_bound.
 Print Assumptions C09_timeout_not_early.
 Print Assumptions C09_no_crosswire.
-Print Assumptions C09_multi_order_partial.
-Print Assumptions C09_multi_vector.
+Print Assumptions C09_multi_order.
+Print Assumptions C09_xrun_core.
+Print Assumptions C09_success_sound_x.
 Print Assumptions C09_forward_once.
 Print Assumptions C09_exec_is_run.
